@@ -56,6 +56,11 @@ TSent == /\ l <= Len(Rec) /\ E.ev = "sent" /\ pc[E.c] \in {"registered", "done"}
 \* the server read one of the client's own notifies: it drew its id from the same counter as the calls
 TNSent == /\ l <= Len(Rec) /\ E.ev = "nsent" /\ E.id \notin used /\ used' = used \cup {E.id}
           /\ Keep /\ UNCHANGED <<pending, pc, cid, chan, s2c, cur, writerShut, reader, notes, subEnded>> /\ l' = l + 1
+\* a request write was interrupted (write timeout): the client itself fails the connection - the writer is shut and its
+\* reader will see the connection end
+TWFail == /\ l <= Len(Rec) /\ E.ev = "wfail"
+          /\ writerShut' = TRUE /\ s2c' = Append(s2c, M!Frame("close", 0, 0))
+          /\ Keep /\ UNCHANGED <<pending, pc, cid, chan, cur, reader, notes, subEnded, used>> /\ l' = l + 1
 TSrv == /\ l <= Len(Rec) /\ E.ev = "srv"
         /\ s2c' = Append(s2c, M!Frame(E.kind, E.id, E.tag))
         /\ Keep /\ UNCHANGED <<pending, pc, cid, chan, cur, writerShut, reader, notes, subEnded, used>> /\ l' = l + 1
@@ -95,7 +100,7 @@ TAfter == /\ l <= Len(Rec) /\ E.ev = "after"
 
 \* silent reader steps (ClientMux's own actions)
 Silent == (M!Recv \/ M!Dispatch \/ M!Fail1 \/ M!Fail2 \/ M!NetReset) /\ UNCHANGED <<used, l>>
-Next == TReset \/ TStart \/ TSent \/ TNSent \/ TSrv \/ TRet \/ TDupReg \/ TNote \/ TSubEnd \/ TAfter \/ Silent
+Next == TReset \/ TStart \/ TSent \/ TNSent \/ TWFail \/ TSrv \/ TRet \/ TDupReg \/ TNote \/ TSubEnd \/ TAfter \/ Silent
 Spec == Init /\ [][Next]_tvars
 
 NoResidue == M!NoResidue
